@@ -168,13 +168,8 @@ def known (inTx : Bool) (op : Op) (now : Int) (pre : DB) : List String :=
        | .error .sqlUnique => ["D03"]
        | _ => [])
     | .keyLen => if pre.keys.any (fun r => !r.live now) then ["D06"] else []
-    | .setInter ks | .setInterStore _ ks | .zInter ks _ | .zInterStore _ ks _ =>
-      (if !distinct ks then ["D07"] else []) ++
-      (match op with
-       | .setInterStore d _ | .zInterStore d _ _ => if ks.contains d then ["D08"] else []
-       | _ => [])
+    | .setInterStore d ks | .zInterStore d ks _ => if ks.contains d then ["D08"] else []
     | .setDiffStore d ks | .setUnionStore d ks | .zUnionStore d ks _ => if ks.contains d then ["D08"] else []
-    | .zDeleteRank _ a b => if a ≥ 0 && b ≥ 0 && b - a + 1 < 0 then ["D09"] else []
     | .strIncr k d =>
       (match Model.strGetRaw pre k now with
        | some v => (match valueInt v with
